@@ -50,6 +50,10 @@ def main():
     if args.replay:
         args.replay = os.path.abspath(args.replay)
     scratch_cwd = tempfile.mkdtemp(prefix='pcbverif_cwd_')
+    # (not empty, so that an RMDIR gone astray cannot remove the working directory itself)
+    os.mkdir(os.path.join(scratch_cwd, 'KEEP.DIR'))
+    with open(os.path.join(scratch_cwd, 'KEEP.DIR', 'keep'), 'w') as f:
+        f.write('x')
     os.chdir(scratch_cwd)
     try:
         import pcbasic
